@@ -240,6 +240,19 @@ def step (st : St) (line : String) : St × Option String :=
   | ["q", "paths", reg] => (st, reg.toNat?.map fun r => fmtPaths st.views[r]!)
   | ["q", "iter", reg] => (st, reg.toNat?.map fun r => fmtIter st.views[r]!)
   | ["q", "elems", reg] => (st, reg.toNat?.map fun r => fmtElems st.views[r]!)
+  | ["q", "death_index", reg, i, _variant] =>
+    match reg.toNat?, i.toInt? with
+    | some r, some k =>
+      let v := st.views[r]!
+      (st, some (if v.lay.length == 0 || v.indexAssert k then "death none" else "death abort assert-in-multi"))
+    | _, _ => (st, some "bad-op")
+  | ["q", "death_assign", a, b, _variant] =>
+    match a.toNat?, b.toNat? with
+    | some ra, some rb =>
+      let va := st.views[ra]!
+      let vb := st.views[rb]!
+      (st, some (if va.lay.length == 0 || View.assignAssert va vb then "death none" else "death abort assert-in-multi"))
+    | _, _ => (st, some "bad-op")
   | ["q", "bcast", reg, junk, i] =>
     match reg.toNat?, junk.toInt?, i.toInt? with
     | some r, some j, some k =>
